@@ -142,6 +142,11 @@ def run(tier="quick", seed=0, replay=None):
                    n_inner=chk.rng.randint(1, 3), model_kind=chk.rng.choice(["scalar", "multi", "grow"]),
                    names_kind=chk.rng.choice(["str", "int", "float", "mixed", "intish"]), storage_kind=chk.rng.choice(["geom", "geom1", "batch"]),
                    storage_size=chk.rng.randint(1, 3), imputer_kind="joint", loss_kind="arbitrary", lbb=False, extra_features=chk.rng.choice([0, 1]))
+        # a storage that already holds observations at the first call (shared, or filled by hand): the first call still only seeds
+        # (no model evaluation), whatever the storage contains; not combined with the user-managed storage case below
+        if i % 5 != 4 and i % 3 == 0:
+            cfg["prefill"] = chk.rng.randint(1, 2)
+            chk.stat("prefilled_storage_configs")
         rig = explain.Rig(chk.rng, **cfg)
         override = chk.rng.random() < 0.3
         desc = {"config": _expl.cfg_desc(cfg), "calls": []}
